@@ -59,7 +59,7 @@ def gen(rng, k):
         pts = zero + idx @ np.array([a, b]) + rng.normal(0, 0.5, (n, 2))
         w = np.concatenate([[100.0, 100.0], 10 ** rng.uniform(-20, -15, n - 2)])
         return {"idx": idx, "pts": pts, "w": w, "exact": True}
-    return {"idx": idx, "pts": pts, "w": w}
+    return {"idx": idx, "pts": pts, "w": w, "int_pts": k % 9 == 4}
 
 
 def exact_wls(idx, pts, w):
@@ -140,7 +140,13 @@ def run_case(kind, p):
     rng = np.random.default_rng(p.get("seed", 0))
     msgs = []
     M = grm.Matcher()
-    m = M.affinematch(centers=pts, indices=idx, refineds=pts, peak_elevations=w, peak_values=np.ones(len(w)))
+    if p.get("int_pts"):
+        # positions kept as integer pixel positions (integer dtype) by the caller; the indices may be fractional
+        pts = np.round(pts)
+        ipts = pts.astype(np.int64)
+        m = M.affinematch(centers=ipts, indices=idx, refineds=ipts.copy(), peak_elevations=w, peak_values=np.ones(len(w)))
+    else:
+        m = M.affinematch(centers=pts, indices=idx, refineds=pts, peak_elevations=w, peak_values=np.ones(len(w)))
     if not m.selector.all():
         msgs.append("affinematch does not select all points")
     if np.isnan(m.zero).any():
